@@ -25,7 +25,7 @@ RULE = ('graphs from vlib.scalegen.gen_graph; non-trivial = graph with >=2 scale
 ASSUMPTIONS = ['int raw data is converted to float64 before Linear/Polynomial/Table evaluation (NumPy promotion)']
 REQUIRED = ['purity_cases', 'graphs', 'scaled_compared', 'windows_compared', 'lazy_compared', 'purity_checks', 'level:channel', 'level:group', 'level:root',
             'status_scaled_cases', 'daqmx_graphs', 'precedence_cases', 'no_count_property', 'parents:first', 'parents:last', 'parents:later']
-N = {'quick': 10000, 'thorough': 100000}
+N = {'quick': 10000, 'thorough': 1000000}
 
 
 SENSOR_KINDS = ['Linear', 'Linear-identity', 'Polynomial', 'Table', 'RTD', 'Thermistor', 'Thermocouple0', 'Thermocouple1', 'AdvancedAPI'] + \
